@@ -384,6 +384,10 @@ class Ops:
             raise Unsupported(f"float operator {op}")
         if isinstance(a, VStr) and isinstance(b, VStr) and op == "+":
             return VStr(z3.Concat(a.term, b.term))
+        if isinstance(a, VSeq) and isinstance(b, VSeq) and op == "+" and self.spec_mode:
+            ref = self.st.new_ref()
+            self.st.heap[(ref, "seq")] = z3.Concat(self.st.heap[(a.ref, "seq")], self.st.heap[(b.ref, "seq")])
+            return VSeq(ref, a.elem)
         if isinstance(a, (VList, VTuple)) and isinstance(b, (VList, VTuple)) and op == "+":
             items = list(self.items_of(a)) + list(self.items_of(b))
             if isinstance(a, VTuple):
